@@ -85,6 +85,9 @@ pub use crate::walk::behavior::{
     DepthBehavior, DepthMax, DepthMin, DepthMinMax, LinkBehavior, WalkBehavior,
 };
 pub use crate::walk::glob::GlobEntry;
+#[cfg(wax_verif)]
+#[doc(hidden)]
+pub use crate::walk::glob::verif_negation_patterns;
 
 type FileFiltrate<T> = Result<T, WalkError>;
 type FileResidue<R> = TreeResidue<R>;
@@ -450,6 +453,10 @@ impl CancelWalk for WalkTree {
         // `IntoIter::skip_current_dir` discards the least recently yielded directory, but
         // `cancel_walk_tree` must act upon the most recently yielded node regardless of its
         // topology (leaf vs. branch).
+        #[cfg(wax_verif)]
+        crate::verif::emit(|| crate::verif::Event::Cancel {
+            effective: self.is_dir,
+        });
         if self.is_dir {
             self.input.skip_current_dir();
         }
@@ -467,6 +474,25 @@ impl Iterator for WalkTree {
             },
             _ => (false, None),
         };
+        #[cfg(wax_verif)]
+        crate::verif::emit(|| match next {
+            Some(Ok(ref entry)) => crate::verif::Event::Yield {
+                path: Some(entry.path().into()),
+                depth: entry.depth(),
+                is_dir,
+                error: None,
+            },
+            Some(Err(ref error)) => crate::verif::Event::Yield {
+                path: WalkError::path(error).map(From::from),
+                depth: WalkError::depth(error),
+                is_dir,
+                error: Some(match error.kind {
+                    WalkErrorKind::Io { .. } => "io",
+                    WalkErrorKind::LinkCycle { .. } => "loop",
+                }),
+            },
+            None => crate::verif::Event::End,
+        });
         self.is_dir = is_dir;
         next
     }
